@@ -166,7 +166,7 @@ Theorem C17_model_passes_checker_as_bound : forall c h,
 Proof. exact gw_model_passes_checker_as_bound. Qed.
 Print Assumptions C17_model_passes_checker_as_bound.
 
-(* ... but not of the predicate as written (finding F50): SELECT count( * ), max(temp) ...
+(* ... but not of the predicate as written (finding F55): SELECT count( * ), max(temp) ...
    TRIGGER WHEN max(Temp) > 5, the call bound to the SELECT's max(temp) as findOutputSpec does for two
    column names that differ in letter case only; the row (temp = 9, Temp = 1) produces a result although
    max(Temp) = 1 *)
